@@ -491,6 +491,9 @@ func mapTypeNaN() *abi.MapType {
 			r := uintptr(fastrand())
 			return r&0xff | (r>>8&0xff)<<56
 		}
+		if f == 0 {
+			return 0x55 // +0 and -0 are equal keys: one hash (as f64hash does)
+		}
 		return uintptr(*(*uint64)(p))
 	}
 	t.Flags = 8 // NeedKeyUpdate; the key is not reflexive
@@ -553,3 +556,48 @@ func mapNaNIterGrow(seeds, pres uint64) {
 
 func H_map_nan_iter_grow()      { mapNaNIterGrow(3, 3) }
 func H_map_nan_iter_grow_wide() { mapNaNIterGrow(15, 6) }
+
+// signed zeros are one key; NaN never matches; ordinary float keys behave as usual
+func H_map_float_zero_nan() {
+	t := mapTypeNaN()
+	nd_setrand(7)
+	h := makemap(t, 0, nil)
+	fput := func(f float64, v uint64) {
+		nd_setrand(int(v) * 37)
+		*(*uint64)(mapassign(t, h, unsafe.Pointer(&f))) = v
+	}
+	fget := func(f float64) (uint64, bool) {
+		nd_setrand(99)
+		p, ok := mapaccess2(t, h, unsafe.Pointer(&f))
+		if !ok {
+			return 0, false
+		}
+		return *(*uint64)(p), true
+	}
+	pz := 0.0
+	nbits := uint64(1) << 63
+	nz := *(*float64)(unsafe.Pointer(&nbits))
+	qbits := uint64(0x7ff8000000000001)
+	nan := *(*float64)(unsafe.Pointer(&qbits))
+	xbits := nd_uint64("x")
+	x := *(*float64)(unsafe.Pointer(&xbits))
+	nd_assume(x == x && x != 0)
+	fput(pz, 1)
+	fput(nz, 2)
+	nd_assert(h.count == 1, "C06.float.zero.one-entry")
+	v, ok := fget(pz)
+	nd_assert(ok && v == 2, "C06.float.zero.lookup")
+	fput(nan, 3)
+	fput(nan, 4)
+	nd_assert(h.count == 3, "C06.float.nan.distinct")
+	_, ok = fget(nan)
+	nd_assert(!ok, "C06.float.nan.nolookup")
+	fput(x, 5)
+	v, ok = fget(x)
+	nd_assert(ok && v == 5 && h.count == 4, "C06.float.ordinary")
+	nd_setrand(99)
+	mapdelete(t, h, unsafe.Pointer(&nz))
+	_, ok = fget(pz)
+	nd_assert(!ok && h.count == 3, "C06.float.zero.delete")
+	nd_reach("C06.float")
+}
